@@ -172,13 +172,11 @@ func checkC11(c *an.Ctx) {
 		good := false
 		why := ""
 		for _, ret := range an.Returns(fn) {
-			for _, src := range an.Sources(an.RetVal(ret, 0)) {
-				call, ok := src.(*ssa.Call)
-				if !ok || an.ShortCallee(&call.Call) != "io.MultiWriter" {
-					why = an.Prov(src)
-					continue
-				}
-				elems := an.VariadicElems(call.Call.Args[0])
+			tees, opaque := teeElems(an.RetVal(ret, 0), nil, 3)
+			if opaque != "" {
+				why = opaque
+			}
+			for _, elems := range tees {
 				hasDec, hasLog := false, false
 				for _, e := range elems {
 					if an.FieldProv(e) == "TaskOutput.decorator" {
@@ -189,7 +187,7 @@ func checkC11(c *an.Ctx) {
 						hasLog = true
 					}
 				}
-				good = hasDec && hasLog && len(elems) == 2
+				good = hasDec && hasLog && len(elems) == 2 && opaque == ""
 				if !good {
 					var ps []string
 					for _, e := range elems {
@@ -345,38 +343,75 @@ func storeName(c *an.Ctx, r *runnerRoles, rule string) {
 		if s, isS := an.ConstString(bo.Y); !isS || s != "" {
 			return false, false
 		}
+		// (the store works on one task: inside a helper of the package the task is the helper's parameter)
 		ap := an.AccessPath(bo.X)
-		if ap.LastField() != "ExportAs" || !an.SameValue(ap.Base, task) {
+		if ap.LastField() != "ExportAs" || len(ap.Fields) != 1 || !an.TypeIs(ap.Base.Type(), "pkg/task", "Task") {
 			return false, false
 		}
 		return bo.Op == token.EQL, true
 	}
 	for _, empty := range []bool{true, false} {
 		empty := empty
-		ex := &an.Explorer{P: c.P, NoReturn: noReturn}
+		// the key on this row: explore the store with the package's helpers inlined, take what the key
+		// denotes where env.Set is reached, and resolve the remaining φs by the row's truth assignment
+		// (only the helpers the key is computed by are inlined: the store may be part of a much larger function)
+		keyFns := map[*ssa.Function]bool{}
+		var collect func(v ssa.Value, depth int)
+		collect = func(v ssa.Value, depth int) {
+			if depth == 0 {
+				return
+			}
+			for _, src := range an.Sources(v) {
+				call, ok := src.(*ssa.Call)
+				if e, isE := src.(*ssa.Extract); isE {
+					call, ok = e.Tuple.(*ssa.Call)
+				}
+				if !ok {
+					continue
+				}
+				if g := call.Call.StaticCallee(); g != nil && g.Blocks != nil && an.Outer(g).Pkg == f.Pkg && !keyFns[g] {
+					keyFns[g] = true
+					for _, ret := range an.Returns(g) {
+						for i := range ret.Results {
+							collect(an.RetVal(ret, i), depth-1)
+						}
+					}
+				}
+			}
+		}
+		collect(key, 3)
+		ex := &an.Explorer{P: c.P, NoReturn: noReturn, MaxDepth: 2, Inline: func(g *ssa.Function) bool { return keyFns[g] && g != f }}
 		ex.Atom = func(v ssa.Value) (an.AVal, bool) {
 			if eq, ok := isExportTest(v); ok {
 				return an.ABool(eq == empty), true
 			}
 			return an.AVal{}, false
 		}
-		var keySrc []ssa.Value
-		ex.Effect = func(in ssa.Instruction, st *an.State) string {
-			if in == ssa.Instruction(envSet) {
-				return "set"
-			}
-			return ""
-		}
-		// follow the key φ along the explored path
-		outs := ex.Run(f, f.Blocks[0], nil, nil)
-		_ = outs
-		// resolve which φ edge is taken: evaluate statically via guards of the φ's predecessor blocks
-		keySrc = phiSourcesUnder(key, func(cond ssa.Value) (bool, bool) {
+		truth := func(cond ssa.Value) (bool, bool) {
 			if eq, ok := isExportTest(cond); ok {
 				return eq == empty, true
 			}
 			return false, false
-		})
+		}
+		var keySrc []ssa.Value
+		addKey := func(v ssa.Value) {
+			for _, k := range keySrc {
+				if k == v {
+					return
+				}
+			}
+			keySrc = append(keySrc, v)
+		}
+		ex.Effect = func(in ssa.Instruction, st *an.State) string {
+			if in == ssa.Instruction(envSet) {
+				for _, src := range phiSourcesUnder(st.Root(key), truth) {
+					addKey(st.Root(src))
+				}
+				return "set"
+			}
+			return ""
+		}
+		ex.Run(f, f.Blocks[0], nil, nil)
 		rowKey := fmt.Sprintf("%s:key row ExportAs %s", an.Short(f), map[bool]string{true: "empty", false: "set"}[empty])
 		if len(keySrc) != 1 {
 			c.Und(rule, rowKey, envSet.Pos(), "cannot determine the key on this row (%d candidates)", len(keySrc))
@@ -385,7 +420,7 @@ func storeName(c *an.Ctx, r *runnerRoles, rule string) {
 		src := keySrc[0]
 		if !empty {
 			ap := an.AccessPath(src)
-			c.Check(ap.LastField() == "ExportAs" && an.SameValue(ap.Base, task) && isPlainLoad(src), rule, rowKey, envSet.Pos(), "the key is Task.ExportAs unchanged", "with ExportAs set the key is not ExportAs itself: "+an.Prov(src))
+			c.Check(ap.LastField() == "ExportAs" && len(ap.Fields) == 1 && an.TypeIs(ap.Base.Type(), "pkg/task", "Task") && isPlainLoad(src), rule, rowKey, envSet.Pos(), "the key is Task.ExportAs unchanged", "with ExportAs set the key is not ExportAs itself: "+an.Prov(src))
 			continue
 		}
 		// sanitised name
@@ -397,6 +432,16 @@ func storeName(c *an.Ctx, r *runnerRoles, rule string) {
 			for _, s2 := range an.Sources(call.Call.Args[0]) {
 				if mc, ok := s2.(*ssa.Call); ok && strings.HasPrefix(an.ShortCallee(&mc.Call), "regexp.MustCompile") {
 					pat, _ = an.ConstString(mc.Call.Args[0])
+				}
+				// a pattern compiled once into a package-level variable nothing else assigns
+				if u, ok := s2.(*ssa.UnOp); ok && u.Op == token.MUL {
+					if g, ok := u.X.(*ssa.Global); ok {
+						if iv := globalInitValue(c.P, g); iv != nil {
+							if mc, ok := iv.(*ssa.Call); ok && strings.HasPrefix(an.ShortCallee(&mc.Call), "regexp.MustCompile") {
+								pat, _ = an.ConstString(mc.Call.Args[0])
+							}
+						}
+					}
 				}
 			}
 			repl, _ := an.ConstString(call.Call.Args[2])
@@ -709,4 +754,63 @@ func escapes(p *an.Prog, a *ssa.Alloc, depth int) bool {
 		}
 	}
 	return false
+}
+
+// teeElems resolves a writer value to the element lists of the io.MultiWriter
+// calls it may come from, looking through helper functions of the module:
+// a helper's parameters are replaced by the arguments of the call site it was
+// reached through. opaque names a source that is not a MultiWriter.
+func teeElems(v ssa.Value, bind map[*ssa.Parameter]ssa.Value, depth int) (tees [][]ssa.Value, opaque string) {
+	subst := func(e ssa.Value) ssa.Value {
+		for i := 0; i < 4; i++ {
+			srcs := an.Sources(e)
+			if len(srcs) != 1 {
+				return e
+			}
+			prm, ok := srcs[0].(*ssa.Parameter)
+			if !ok {
+				return e
+			}
+			b, ok := bind[prm]
+			if !ok {
+				return e
+			}
+			e = b
+		}
+		return e
+	}
+	for _, src := range an.Sources(subst(v)) {
+		call, ok := src.(*ssa.Call)
+		if !ok {
+			opaque = an.Prov(src)
+			continue
+		}
+		if an.ShortCallee(&call.Call) == "io.MultiWriter" {
+			var elems []ssa.Value
+			for _, e := range an.VariadicElems(call.Call.Args[0]) {
+				elems = append(elems, subst(e))
+			}
+			tees = append(tees, elems)
+			continue
+		}
+		callee := call.Call.StaticCallee()
+		if callee == nil || callee.Blocks == nil || !an.InModule(callee) || depth == 0 {
+			opaque = an.Prov(src)
+			continue
+		}
+		nb := map[*ssa.Parameter]ssa.Value{}
+		for i, prm := range callee.Params {
+			if i < len(call.Call.Args) {
+				nb[prm] = subst(call.Call.Args[i])
+			}
+		}
+		for _, ret := range an.Returns(callee) {
+			t, o := teeElems(an.RetVal(ret, 0), nb, depth-1)
+			tees = append(tees, t...)
+			if o != "" {
+				opaque = o
+			}
+		}
+	}
+	return tees, opaque
 }
